@@ -1,6 +1,7 @@
 package c03
 
 import (
+	"encoding/xml"
 	"fmt"
 	"math/rand"
 	"os"
@@ -654,6 +655,210 @@ func innerWildcardLane(c *ev.Ctx, seed int64) {
 				if op == "DeleteObject" && !got {
 					root.PutObject(b, k, []byte("data of "+k))
 				}
+			}
+		}
+	}
+}
+
+// Copy-source lane: "the decision is taken ... for both source and destination of a copy" - for the source object the
+// copy actually reads. A key may contain the text "?versionId=" (it is an ordinary character sequence in a key);
+// the account may read Y and nothing else, and names as copy source spellings whose split into key and version id is
+// ambiguous. Whatever object the gateway reads, it must be one the account may read: the secret never reaches a place
+// where the account can see it.
+func copySourceSplitLane(c *ev.Ctx, sidecar bool) {
+	store := "xattr"
+	if sidecar {
+		store = "sidecar"
+	}
+	id := "cs/copy-source-split/" + store
+	if !c.Want(id) {
+		return
+	}
+	env, err := fx.New("c03cs", gw.Config{Sidecar: sidecar, Versioning: true}, 1)
+	if err != nil {
+		c.Inconclusive("gateway start (copy-source lane): " + err.Error())
+		return
+	}
+	defer env.Close()
+	root := env.Client(0)
+	if r := env.CreateUser("alice", "alice-secret-1", "user", 0, 0); r.Status != 201 {
+		c.Inconclusive("create user: " + r.String())
+		return
+	}
+	alice := root.With("alice", "alice-secret-1")
+	const b = "cbkt"
+	if r := root.CreateBucket(b); !r.OK() {
+		c.Inconclusive("create bucket: " + r.String())
+		return
+	}
+	const secret = "SECRET-copy-source-split-4be2"
+	denied := []string{"Y?versionId=Z", "Y?versionId=", "Y?versionId=Z?versionId=Q", "sub/Y?versionId=null"}
+	root.PutObject(b, "Y", []byte("public data of Y"))
+	root.PutObject(b, "sub/Y", []byte("public data of sub/Y"))
+	stored := 0
+	for _, k := range denied {
+		if p := root.PutObject(b, k, []byte(secret+" in "+k)); p.OK() {
+			stored++
+		}
+	}
+	if stored == 0 {
+		c.Observe("copy-source lane: keys containing ?versionId= are not storable")
+		return
+	}
+	pol := fmt.Sprintf(`{"Version":"2012-10-17","Statement":[{"Effect":"Allow","Principal":{"AWS":["alice"]},"Action":["s3:GetObject","s3:GetObjectVersion"],"Resource":["arn:aws:s3:::%s/Y","arn:aws:s3:::%s/sub/Y"]},{"Effect":"Allow","Principal":{"AWS":["alice"]},"Action":["s3:PutObject","s3:GetObject"],"Resource":"arn:aws:s3:::%s/loot*"}]}`, b, b, b)
+	if r := root.Sub("PUT", b, "", "policy=", []byte(pol)); !r.OK() {
+		c.Inconclusive("put policy: " + r.String())
+		return
+	}
+	if g := alice.GetObject(b, "Y"); !g.OK() {
+		c.Inconclusive("control: allowed read refused: " + g.String())
+		return
+	}
+	for _, k := range denied {
+		if g := alice.GetObject(b, k); g.Status < 400 {
+			c.Violation("copy-source-split:plain-get-of-denied-key-served["+store+"]", id, map[string]any{"key": k, "get": g.String()})
+			return
+		}
+	}
+	enc := func(s string) string { return strings.NewReplacer("?", "%3F", "=", "%3D").Replace(s) }
+	sources := []string{
+		b + "/" + enc("Y?versionId=Z") + "?versionId=",
+		b + "/" + enc("Y?versionId=Z"),
+		b + "/Y?versionId=Z?versionId=",
+		b + "/" + enc("Y?versionId=") + "?versionId=",
+		b + "/" + enc("Y?versionId=Z?versionId=Q") + "?versionId=",
+		b + "/Y?versionId=Z?versionId=Q",
+		b + "/" + enc("sub/Y?versionId=null") + "?versionId=",
+		"/" + b + "/" + enc("Y?versionId=Z") + "?versionId=",
+	}
+	for i, src := range sources {
+		for _, op := range []string{"CopyObject", "UploadPartCopy"} {
+			loot := fmt.Sprintf("loot-%d", i)
+			var resp *s3c.Resp
+			if op == "CopyObject" {
+				resp = alice.Do(&s3c.Req{Method: "PUT", Path: s3c.ObjPath(b, loot), Header: s3c.H{{"X-Amz-Copy-Source", src}}})
+			} else {
+				loot += "-mpu"
+				up, cr := alice.CreateMPU(b, loot)
+				if !cr.OK() {
+					continue
+				}
+				resp = alice.Do(&s3c.Req{Method: "PUT", Path: s3c.ObjPath(b, loot), Query: s3c.Q("partNumber", "1", "uploadId", up), Header: s3c.H{{"X-Amz-Copy-Source", src}}})
+				if resp.OK() && !strings.Contains(string(resp.Body), "<Error>") {
+					var cp struct{ ETag string }
+					xml.Unmarshal(resp.Body, &cp)
+					alice.CompleteMPU(b, loot, up, []s3c.Part{{N: 1, ETag: cp.ETag}})
+				}
+			}
+			c.Eval(1)
+			if resp.Err != nil {
+				c.Inconclusive("transport error in copy-source lane")
+				return
+			}
+			g := root.GetObject(b, loot)
+			det := map[string]any{"copy_source": src, "operation": op, "answer": resp.String(), "policy": "alice may read cbkt/Y and cbkt/sub/Y, and write/read cbkt/loot*"}
+			if g.OK() && strings.Contains(string(g.Body), secret) {
+				det["destination_holds"] = clipS(string(g.Body), 80)
+				c.Violation("copy-source-split:"+op+":content-of-a-denied-key-copied["+store+"]", id, det)
+				root.DeleteObject(b, loot)
+				continue
+			}
+			c.Distinct(fmt.Sprintf("cs|%s|%d|%s", op, i, store))
+		}
+	}
+}
+
+// Bypass-batch lane: "the decision is taken per object, also for every key of a batch delete" - including the decision
+// whether the caller may bypass GOVERNANCE retention. The account holds s3:BypassGovernanceRetention on tmp/* only;
+// batch deletes with the bypass header name protected versions under tmp/ (may go) and under keep/ (must stay) in
+// every order. Whatever is answered, no version under keep/ may be gone afterwards.
+func bypassBatchLane(c *ev.Ctx, sidecar bool) {
+	store := "xattr"
+	if sidecar {
+		store = "sidecar"
+	}
+	id := "bb/bypass-batch/" + store
+	if !c.Want(id) {
+		return
+	}
+	env, err := fx.New("c03bb", gw.Config{Sidecar: sidecar, Versioning: true}, 1)
+	if err != nil {
+		c.Inconclusive("gateway start (bypass-batch lane): " + err.Error())
+		return
+	}
+	defer env.Close()
+	root := env.Client(0)
+	if r := env.CreateUser("alice", "alice-secret-1", "user", 0, 0); r.Status != 201 {
+		c.Inconclusive("create user: " + r.String())
+		return
+	}
+	alice := root.With("alice", "alice-secret-1")
+	const b = "lockb"
+	if r := root.CreateBucket(b, "x-amz-bucket-object-lock-enabled", "true"); !r.OK() {
+		c.Inconclusive("create lock bucket: " + r.String())
+		return
+	}
+	pol := fmt.Sprintf(`{"Version":"2012-10-17","Statement":[{"Effect":"Allow","Principal":{"AWS":["alice"]},"Action":["s3:DeleteObject","s3:DeleteObjectVersion","s3:GetObject","s3:GetObjectVersion","s3:ListBucket"],"Resource":["arn:aws:s3:::%s","arn:aws:s3:::%s/*"]},{"Effect":"Allow","Principal":{"AWS":["alice"]},"Action":"s3:BypassGovernanceRetention","Resource":"arn:aws:s3:::%s/tmp/*"}]}`, b, b, b)
+	if r := root.Sub("PUT", b, "", "policy=", []byte(pol)); !r.OK() {
+		c.Inconclusive("put policy: " + r.String())
+		return
+	}
+	until := time.Now().Add(48 * time.Hour).UTC().Format("2006-01-02T15:04:05Z")
+	put := func(key string) string {
+		r := root.PutObject(b, key, []byte("protected data of "+key), "X-Amz-Object-Lock-Mode", "GOVERNANCE", "X-Amz-Object-Lock-Retain-Until-Date", until)
+		if !r.OK() {
+			return ""
+		}
+		return r.Header.Get("X-Amz-Version-Id")
+	}
+	orders := [][]string{{"tmp/a", "keep/b"}, {"keep/b", "tmp/a"}, {"tmp/a", "tmp/c", "keep/b", "keep/d"}, {"keep/b"}, {"tmp/a", "keep/b", "tmp/c"}}
+	for oi, order := range orders {
+		vids := map[string]string{}
+		okPut := true
+		for _, k := range order {
+			key := fmt.Sprintf("%s-%d", k, oi)
+			if vids[key] = put(key); vids[key] == "" {
+				okPut = false
+			}
+		}
+		if !okPut {
+			c.Inconclusive("bypass-batch lane: protected upload refused")
+			return
+		}
+		for _, withVid := range []bool{true, false} {
+			var sb strings.Builder
+			sb.WriteString(`<Delete xmlns="http://s3.amazonaws.com/doc/2006-03-01/">`)
+			for _, k := range order {
+				key := fmt.Sprintf("%s-%d", k, oi)
+				sb.WriteString("<Object><Key>" + key + "</Key>")
+				if withVid {
+					sb.WriteString("<VersionId>" + vids[key] + "</VersionId>")
+				}
+				sb.WriteString("</Object>")
+			}
+			sb.WriteString("</Delete>")
+			body := []byte(sb.String())
+			resp := alice.Do(&s3c.Req{Method: "POST", Path: "/" + b, Query: "delete=", Body: body, Header: s3c.H{{"Content-MD5", s3c.MD5B64(body)}, {"X-Amz-Bypass-Governance-Retention", "true"}}})
+			c.Eval(1)
+			if resp.Err != nil {
+				c.Inconclusive("transport error in bypass-batch lane")
+				return
+			}
+			bad := false
+			for _, k := range order {
+				if !strings.HasPrefix(k, "keep/") {
+					continue
+				}
+				key := fmt.Sprintf("%s-%d", k, oi)
+				g := root.GetObjectV(b, key, vids[key])
+				if !g.OK() || string(g.Body) != "protected data of "+key {
+					c.Violation(fmt.Sprintf("bypass-batch:protected-version-outside-the-bypass-grant-deleted:order%d[%s]", oi, store), id, map[string]any{"batch_order": order, "entries_carry_version_ids": withVid,
+						"answer": resp.String(), "body": clipS(string(resp.Body), 300), "lost": key + "?versionId=" + vids[key], "get": g.String(), "policy": "s3:BypassGovernanceRetention on lockb/tmp/* only"})
+					bad = true
+				}
+			}
+			if !bad {
+				c.Distinct(fmt.Sprintf("bb|order%d|vid=%v|%s", oi, withVid, store))
 			}
 		}
 	}
